@@ -529,10 +529,12 @@ func (b *Builder) cmp(op Op, x, y *Term) *Term {
 	if op == OpBvUle && x.IsConst() && x.Val == 0 {
 		return b.True()
 	}
-	// zero-extended operand vs. constant beyond its range
+	// operand with known leading zeros vs. constant beyond its range
 	if op == OpBvUlt || op == OpBvUle {
-		if x.Op == OpZext && y.IsConst() && y.Val > mask(x.Args[0].W) {
-			return b.True()
+		if y.IsConst() {
+			if eff := x.W - LeadingZeros(x); eff < 64 && y.Val > mask(eff) {
+				return b.True()
+			}
 		}
 	}
 	return b.mk(op, 0, 0, 0, 0, "", x, y)
@@ -574,9 +576,22 @@ func (b *Builder) Extract(x *Term, hi, lo int) *Term {
 			return b.Extract(x.Args[0], hi-lowW, lo-lowW)
 		}
 	case OpBvAnd, OpBvOr, OpBvXor:
-		// push extract through bitwise ops when one side is const (keeps byte-level terms small)
-		if x.Args[0].IsConst() || x.Args[1].IsConst() {
-			return b.bin(x.Op, b.Extract(x.Args[0], hi, lo), b.Extract(x.Args[1], hi, lo))
+		// bitwise ops commute with extraction (keeps byte-level terms small)
+		return b.bin(x.Op, b.Extract(x.Args[0], hi, lo), b.Extract(x.Args[1], hi, lo))
+	case OpBvNot:
+		return b.BvNot(b.Extract(x.Args[0], hi, lo))
+	case OpIte:
+		if x.Args[1].IsConst() || x.Args[2].IsConst() {
+			return b.Ite(x.Args[0], b.Extract(x.Args[1], hi, lo), b.Extract(x.Args[2], hi, lo))
+		}
+	case OpBvLshr:
+		// (x >> k)[hi:lo] = x[hi+k:lo+k] when it stays inside x
+		if k := x.Args[1]; k.IsConst() && int(k.Val)+hi < x.W {
+			return b.Extract(x.Args[0], hi+int(k.Val), lo+int(k.Val))
+		}
+	case OpBvShl:
+		if k := x.Args[1]; k.IsConst() && lo >= int(k.Val) {
+			return b.Extract(x.Args[0], hi-int(k.Val), lo-int(k.Val))
 		}
 	}
 	return b.mk(OpExtract, w, 0, hi, lo, "", x)
@@ -730,3 +745,79 @@ func Eval(t *Term, model map[string]uint64, memo map[*Term]uint64) (v uint64, ok
 }
 
 var _ = bits.Len
+
+// LeadingZeros returns a lower bound on the number of leading zero bits of a
+// bit-vector term (syntactic, shallow).
+func LeadingZeros(t *Term) int {
+	return lz(t, 0)
+}
+
+func lz(t *Term, depth int) int {
+	if t.W == 0 {
+		return 0
+	}
+	switch t.Op {
+	case OpConst:
+		return t.W - bits.Len64(t.Val)
+	case OpZext:
+		if depth > 8 {
+			return t.P1
+		}
+		return t.P1 + lz(t.Args[0], depth+1)
+	}
+	if depth > 8 {
+		return 0
+	}
+	switch t.Op {
+	case OpBvAnd:
+		a, c := lz(t.Args[0], depth+1), lz(t.Args[1], depth+1)
+		if a > c {
+			return a
+		}
+		return c
+	case OpBvOr, OpBvXor:
+		a, c := lz(t.Args[0], depth+1), lz(t.Args[1], depth+1)
+		if a < c {
+			return a
+		}
+		return c
+	case OpIte:
+		a, c := lz(t.Args[1], depth+1), lz(t.Args[2], depth+1)
+		if a < c {
+			return a
+		}
+		return c
+	case OpBvLshr:
+		if k := t.Args[1]; k.IsConst() {
+			n := lz(t.Args[0], depth+1) + int(k.Val)
+			if n > t.W {
+				n = t.W
+			}
+			return n
+		}
+		return lz(t.Args[0], depth+1)
+	case OpBvUrem:
+		return lz(t.Args[1], depth+1)
+	case OpBvUdiv:
+		return lz(t.Args[0], depth+1)
+	case OpConcat:
+		if n := lz(t.Args[0], depth+1); n == t.Args[0].W {
+			return n + lz(t.Args[1], depth+1)
+		} else {
+			return n
+		}
+	case OpExtract:
+		// bits above hi are dropped
+		in := lz(t.Args[0], depth+1)
+		drop := t.Args[0].W - 1 - t.P1
+		if in > drop {
+			n := in - drop
+			if n > t.W {
+				n = t.W
+			}
+			return n
+		}
+		return 0
+	}
+	return 0
+}
